@@ -252,6 +252,37 @@ def _both_append_outputs(t):
     return False
 
 
+
+def record_touched_triples():
+    """re-merges around an nbdime-conflicts record left by an earlier conflicted merge: base with / without a record,
+    each side keeps, removes, edits or adds one (notebook and cell metadata), and a NEW metadata conflict arises"""
+    import itertools
+    rec = {'local_diff': [], 'remote_diff': []}
+    rec2 = {'local_diff': [{'op': 'add', 'key': 'z', 'value': 1}], 'remote_diff': []}
+    out = []
+    for base_has, lop, rop, level in itertools.product([True, False], ['keep', 'remove', 'edit', 'add'], ['keep', 'remove', 'edit', 'add'], ['nb', 'cell']):
+        base = {'cells': [{'cell_type': 'code', 'execution_count': None, 'metadata': {}, 'outputs': [], 'source': 'x = 1'}],
+                'metadata': {}, 'nbformat': 4, 'nbformat_minor': 4}
+        md = (lambda nb: nb['metadata']) if level == 'nb' else (lambda nb: nb['cells'][0]['metadata'])
+        if base_has: md(base)['nbdime-conflicts'] = copy.deepcopy(rec)
+        md(base)['k'] = 'base'
+        l = copy.deepcopy(base); r = copy.deepcopy(base); ok = True
+        for side, op in ((l, lop), (r, rop)):
+            m = md(side)
+            if op == 'remove':
+                if 'nbdime-conflicts' in m: del m['nbdime-conflicts']
+                else: ok = False
+            elif op == 'edit':
+                if 'nbdime-conflicts' in m: m['nbdime-conflicts'] = copy.deepcopy(rec2)
+                else: ok = False
+            elif op == 'add':
+                if 'nbdime-conflicts' not in m: m['nbdime-conflicts'] = copy.deepcopy(rec2)
+                else: ok = False
+        if not ok or (lop == 'keep' and rop == 'keep'): continue
+        md(l)['k'] = 'local'; md(r)['k'] = 'remote'
+        out.append({'b': base, 'l': l, 'r': r, 'src': 'crafted:record_touched'})
+    return out
+
 def crafted_triples(r, n, gennb):
     """collisions the edit-script generator rarely produces: both sides append different outputs / add the same attachment
     name / add the same metadata key / insert similar cells with different attachments, at a random cell of a generated base"""
